@@ -53,7 +53,7 @@ func h5Main(env *Env, c *H5Cfg, sh *h5Shared) {
 			return
 		}
 		sh.ratesDurNs = int64(twin.Duration) // (the builder's trigger duration is the run's max duration for open-ended profiles)
-		if c.Kind == "staged" { // (the ramp builder reports no duration of its own: the run's max duration bounds it)
+		if c.Kind == "staged" {              // (the ramp builder reports no duration of its own: the run's max duration bounds it)
 			sh.ratesDurNs = int64(rates.Duration)
 		}
 	}
